@@ -446,6 +446,15 @@ pub fn run_supervisor(p: &dyn Property, a: &RunArgs) -> i32 {
     let known = load_known();
     let (rel, dev) = engine_paths();
     let n = p.workers(a.tier);
+    // replay files of earlier runs of this property are stale by definition
+    let rdir0 = std::env::var("FMLV_REPLAY_DIR").unwrap_or_else(|_| format!("{}/replays", VERIF));
+    if let Ok(rd) = std::fs::read_dir(&rdir0) {
+        for e in rd.flatten() {
+            if e.file_name().to_string_lossy().starts_with(&format!("{}-", id)) {
+                let _ = std::fs::remove_file(e.path());
+            }
+        }
+    }
 
     let mut violations: Vec<Violation> = vec![];
     let mut harness_errors: Vec<String> = vec![];
